@@ -3016,6 +3016,17 @@ impl Compiler {
     ) -> Result<CompileNodeOutput> {
         use Op::*;
 
+        if matches!(ctx.result_register, ResultRegister::None) {
+            // The function's value isn't being used, but it still needs to be created
+            // (which evaluates its default argument values), rather than having its body
+            // compiled into the instructions of the enclosing frame.
+            let result = self.compile_function(function, ctx.with_any_register())?;
+            if result.is_temporary {
+                self.pop_register()?;
+            }
+            return Ok(CompileNodeOutput::none());
+        }
+
         let result = self.assign_result_register(ctx)?;
 
         let Node::FunctionArgs {
